@@ -204,8 +204,10 @@ class TracepointConfigService:
             self._custom_ids[tp_id] = config
             try:
                 self.__trigger_update(None, None)
-            except IllegalStateException:
-                # the caller gets no id, so nothing may be left that could become active later
+            except BaseException:
+                # refused (IllegalStateException: we are shut down), or the hand-over failed in another way (the pool has
+                # been retired at the end of the process, no thread could be started): the caller gets no id, so nothing
+                # may be left that could become active later
                 self._custom_ids.pop(tp_id, None)
                 self._custom = [cfg for cfg in self._custom if cfg is not config]
                 raise
@@ -226,9 +228,9 @@ class TracepointConfigService:
             self._custom = [cfg for cfg in self._custom if cfg is not config]
             try:
                 self.__trigger_update(None, None)
-            except IllegalStateException:
-                # refused (we are shut down): the listeners still have it, so it stays registered and can be removed
-                # later
+            except BaseException:
+                # refused (we are shut down), or the hand-over failed in another way: the listeners still have it, so it
+                # stays registered and can be removed later
                 self._custom_ids[_id] = config
                 self._custom.append(config)
                 raise
